@@ -1,4 +1,5 @@
 import FrappyProofs.Lemmas.Lifecycle
+import FrappyModel.Generated.C15
 /-
 C15 — Lifecycle: initialise, write config, poll, serve; shutdown in reverse order.
 Property theorems over `FrappyModel.Klass.Lifecycle` against `FrappyModel.Spec.C15`.
@@ -158,5 +159,10 @@ theorem sample_run_accepted :
     judge sampleCfg ⟨(run sampleCfg 20 [.main, .main, .step "c"] (fun _ => 1)).st.modules, [],
       (run sampleCfg 20 [.main, .main, .step "c"] (fun _ => 1)).log, []⟩ = [] := by
   decide +kernel
+
+/-- constants of the source the harness and the generators rely on (start-up timeout of `_processCfg`, default
+export flags): re-extracted on every run, an edit breaks this proof -/
+theorem table_facts : Frappy.Generated.C15.startTimeout = 30 ∧ Frappy.Generated.C15.pinataExported = false ∧
+    Frappy.Generated.C15.moduleExported = true := by decide
 
 end Frappy.Proofs.C15
